@@ -84,6 +84,56 @@ func genCtor(t *rapid.T) CtorCase {
 	return c
 }
 
+// againV: the Must variant returns the same bounds as the plain one, and a second call is not
+// affected by what the caller did to the first result (every call returns memory of its own).
+func againV(errs *pbt.Errs, what string, b tally.ValueBuckets, plain, must func() tally.ValueBuckets) {
+	orig := append(tally.ValueBuckets(nil), b...)
+	same := func(x tally.ValueBuckets) bool {
+		if len(x) != len(orig) {
+			return false
+		}
+		for i := range x {
+			if math.Float64bits(x[i]) != math.Float64bits(orig[i]) {
+				return false
+			}
+		}
+		return true
+	}
+	if m := must(); !same(m) {
+		errs.Addf("MustMake%s returned %v, the plain variant %v", what, m, orig)
+	}
+	for i := range b {
+		b[i] = -12345.5
+	}
+	if again := plain(); !same(again) {
+		errs.Addf("%s: after the caller overwrote the first result a second call with the same arguments returned %v, first %v", what, again, orig)
+	}
+}
+
+func againD(errs *pbt.Errs, what string, b tally.DurationBuckets, plain, must func() tally.DurationBuckets) {
+	orig := append(tally.DurationBuckets(nil), b...)
+	same := func(x tally.DurationBuckets) bool {
+		if len(x) != len(orig) {
+			return false
+		}
+		for i := range x {
+			if x[i] != orig[i] {
+				return false
+			}
+		}
+		return true
+	}
+	if m := must(); !same(m) {
+		errs.Addf("MustMake%s returned %v, the plain variant %v", what, m, orig)
+	}
+	for i := range b {
+		b[i] = -12345
+	}
+	if again := plain(); !same(again) {
+		errs.Addf("%s: after the caller overwrote the first result a second call with the same arguments returned %v, first %v", what, again, orig)
+	}
+}
+
 func panics(f func()) (p bool) {
 	defer func() {
 		if recover() != nil {
@@ -132,6 +182,8 @@ func runCtor(c CtorCase) (pbt.Outcome, error) {
 			if len(b) > 0 && b[0] != start {
 				errs.Addf("first bound %v != start %v", b[0], start)
 			}
+			againV(&errs, "LinearValueBuckets", b, func() tally.ValueBuckets { r, _ := tally.LinearValueBuckets(start, width, n); return r },
+				func() tally.ValueBuckets { return tally.MustMakeLinearValueBuckets(start, width, n) })
 			out.NonTrivial = n >= 2
 		} else {
 			out.NonTrivial = true
@@ -156,6 +208,8 @@ func runCtor(c CtorCase) (pbt.Outcome, error) {
 					break
 				}
 			}
+			againD(&errs, "LinearDurationBuckets", b, func() tally.DurationBuckets { r, _ := tally.LinearDurationBuckets(start, width, n); return r },
+				func() tally.DurationBuckets { return tally.MustMakeLinearDurationBuckets(start, width, n) })
 			out.NonTrivial = n >= 2
 		} else {
 			out.NonTrivial = true
@@ -186,6 +240,8 @@ func runCtor(c CtorCase) (pbt.Outcome, error) {
 			if len(b) > 0 && b[0] != start {
 				errs.Addf("first bound %v != start %v", b[0], start)
 			}
+			againV(&errs, "ExponentialValueBuckets", b, func() tally.ValueBuckets { r, _ := tally.ExponentialValueBuckets(start, factor, n); return r },
+				func() tally.ValueBuckets { return tally.MustMakeExponentialValueBuckets(start, factor, n) })
 			out.NonTrivial = n >= 2
 		} else {
 			out.NonTrivial = true
@@ -217,6 +273,8 @@ func runCtor(c CtorCase) (pbt.Outcome, error) {
 			if len(b) > 0 && b[0] != start {
 				errs.Addf("first bound %v != start %v", b[0], start)
 			}
+			againD(&errs, "ExponentialDurationBuckets", b, func() tally.DurationBuckets { r, _ := tally.ExponentialDurationBuckets(start, factor, n); return r },
+				func() tally.DurationBuckets { return tally.MustMakeExponentialDurationBuckets(start, factor, n) })
 			out.NonTrivial = n >= 2
 		} else {
 			out.NonTrivial = true
